@@ -399,7 +399,7 @@ func c06System(cfg c06Cfg) *bfs.System[W, oop] {
 		Check:    func(w W) (string, string) { return w.Check() },
 		Key:      func(w W) string { return w.Key() },
 		MaxDepth: cfg.depth,
-		Describe: func(w W) string { return w.Describe() },
+		Describe: func(w W) string { return w.Describe() }, Touch: func(w W) { w.Touch() },
 	}
 }
 
